@@ -9,6 +9,8 @@ package consensus
 // finds every marker that was written, without the option that skips corruption.
 
 import (
+	"strings"
+	"errors"
 	"fmt"
 	"io"
 	"testing"
@@ -31,9 +33,14 @@ type c15cRun struct {
 	walPath string
 	written []int64 // ids in write order (the writer is sequential)
 	werr    error
+	// reader scenarios: what a reader opened on the oldest file returned, and what had been written and synced before it was opened
+	reading bool
+	before  []int64
+	read    []int64
+	rerr    error
 }
 
-var c15cScenarios = []string{"writer+rotate", "writer+rotate+flush", "writer+2rotates", "writer+rotate+prune"}
+var c15cScenarios = []string{"writer+rotate", "writer+rotate+flush", "writer+2rotates", "writer+rotate+prune", "reader+rotate", "reader+rotate+writer", "reader+2rotates"}
 
 func c15cBuild(scn string) (*gosched.Sched, *c15cRun) {
 	w := vos.NewWorld()
@@ -44,7 +51,6 @@ func c15cBuild(scn string) (*gosched.Sched, *c15cRun) {
 	}
 	run.wal = wal
 	s := gosched.New()
-	wal.group.VerifManage(s)
 	write := func(id int64, sync bool) {
 		var err error
 		if sync {
@@ -63,6 +69,55 @@ func c15cBuild(scn string) (*gosched.Sched, *c15cRun) {
 		write(2, false)
 		write(-2, true) // #ENDHEIGHT 2
 	}
+	if strings.HasPrefix(scn, "reader") {
+		// before any concurrency: two files, everything on disk — wal.000 = [#0, 1, #1], head = [2, #2]
+		write(1, false)
+		write(-1, true)
+		wal.group.RotateFile()
+		write(2, false)
+		write(-2, true)
+		run.reading = true
+		run.before = append([]int64{0}, run.written...)
+		wal.group.VerifManage(s)
+		s.Go("reader", func() {
+			gr, err := wal.group.NewReader(0)
+			if err != nil {
+				run.rerr = err
+				return
+			}
+			defer gr.Close()
+			dec := NewWALDecoder(gr)
+			for {
+				tm, err := dec.Decode()
+				if errors.Is(err, io.EOF) {
+					return
+				}
+				if err != nil {
+					run.rerr = err
+					return
+				}
+				id, ok := c15ID(tm.Msg)
+				if !ok {
+					run.rerr = fmt.Errorf("reader returned a record that was never written: %T", tm.Msg)
+					return
+				}
+				run.read = append(run.read, id)
+			}
+		})
+		switch scn {
+		case "reader+rotate":
+			s.Go("ticker", func() { wal.group.RotateFile() })
+		case "reader+rotate+writer":
+			s.Go("ticker", func() { wal.group.RotateFile() })
+			s.Go("writer", func() { write(3, false); write(-3, true) })
+		case "reader+2rotates":
+			s.Go("ticker", func() { wal.group.RotateFile(); wal.group.RotateFile() })
+		default:
+			panic("c15c: unknown scenario " + scn)
+		}
+		return s, run
+	}
+	wal.group.VerifManage(s)
 	s.Go("writer", writer)
 	switch scn {
 	case "writer+rotate":
@@ -98,6 +153,38 @@ func (run *c15cRun) judge(res *gosched.Result) (key, what string) {
 	}
 	if err := run.wal.FlushAndSync(); err != nil {
 		return "consensus/wal:flush-fails", err.Error()
+	}
+	if run.reading {
+		// 0. the reader that was open during the rotation: everything that was on disk before it was opened, in order,
+		// then possibly some of what was written meanwhile, in write order
+		if run.rerr != nil {
+			return "libs/autofile/group.go:GroupReader:fails-when-the-group-rotates-under-it", fmt.Sprintf("read %v then: %v", run.read, run.rerr)
+		}
+		// (records written while the reader is open are not "earlier synced writes" for it: it may see any of them, in
+		// write order — a reader that reaches the end of the head just before a rotation flushes more into it moves on)
+		all := append([]int64{0}, run.written...)
+		okPrefix := len(run.read) >= len(run.before)
+		for i := 0; okPrefix && i < len(run.before); i++ {
+			if run.read[i] != run.before[i] {
+				okPrefix = false
+			}
+		}
+		if okPrefix {
+			j := len(run.before)
+			for _, id := range run.read[len(run.before):] {
+				for j < len(all) && all[j] != id {
+					j++
+				}
+				if j == len(all) {
+					okPrefix = false
+					break
+				}
+				j++
+			}
+		}
+		if !okPrefix {
+			return "libs/autofile/group.go:GroupReader:records-skipped-when-the-group-rotates-under-it", fmt.Sprintf("on disk before the reader was opened %v, written in all %v, the reader returned %v", run.before, all, run.read)
+		}
 	}
 	// 1. a reader over the whole group returns what was written, in order (behind the initial #ENDHEIGHT 0)
 	ids, rerr := c15ReadAll(run.wal)
